@@ -18,6 +18,29 @@ def load_json(path, default=None):
         return default
 
 
+class Only:
+    """View of a Run that records only the obligations whose key contains one of `needles` (used when one property
+    borrows a single clause of another property's rule); floors and anchors pass through."""
+
+    def __init__(self, run, *needles):
+        self.__dict__["_run"] = run
+        self.__dict__["_needles"] = needles
+
+    def __getattr__(self, k):
+        return getattr(self._run, k)
+
+    def __setattr__(self, k, v):
+        setattr(self._run, k, v)
+
+    def ob(self, rule, instance, ok, detail=None, site=None, key=None):
+        if any(n in (key or "") for n in self._needles):
+            return self._run.ob(rule, instance, ok, detail, site, key)
+        return ok
+
+    def floor(self, rule, count, minimum, what=""):
+        return True
+
+
 class Run:
     """One check run for one property."""
 
